@@ -39,6 +39,9 @@ type c01bCase struct {
 func c01bRun(c c01bCase) Outcome {
 	var o Outcome
 	res := inBubble(theT, func() { o = c01bRunInBubble(c) })
+	if o, stuck := stuckVerdict(res); stuck {
+		return o
+	}
 	if res.Panic != "" {
 		return viol("panic@"+topFrame(res.Stack), "%s\n%s", res.Panic, res.Stack)
 	}
